@@ -463,9 +463,6 @@ func (f *Func) reachTarget(
 				// Do nothing
 
 			case *valueVertex:
-				// Store the last viewed vertex in our path state
-				state.Value = v.Value
-
 				if pathIdx > 0 {
 					prev := path[pathIdx-1]
 					if r, ok := prev.(*typedOutputVertex); ok {
@@ -473,6 +470,9 @@ func (f *Func) reachTarget(
 						v.Value = r.Value
 					}
 				}
+
+				// Store the last viewed vertex in our path state
+				state.Value = v.Value
 
 				// If we have a valid value set, then put it on our named list.
 				if v.Value.IsValid() {
